@@ -62,7 +62,6 @@ package mem
 
 //@ spec srcData(src keyvalue.FileRecord) := ret("keyvalue.(FileRecord).Data", 0, src)
 //@ spec srcDataErr(src keyvalue.FileRecord) := ret("keyvalue.(FileRecord).Data", 1, src)
-//@ spec srcW1(src keyvalue.FileRecord) := worldAfter("keyvalue.(FileRecord).Data", src)
 //@ spec sameExcept(s *store, path string) := forall(k, string, implies(k != path, in(k, dom(s.records)) == old(in(k, dom(s.records))) && s.records[k] == old(s.records[k])))
 //@ spec sameAll(s *store) := forall(k, string, in(k, dom(s.records)) == old(in(k, dom(s.records))) && s.records[k] == old(s.records[k]))
 
@@ -75,8 +74,8 @@ package mem
 //@   ensures "store" implies(src != nil && old(srcDataErr(src)) == nil, err == nil && in(path, dom(s.records)) && sameExcept(s, path) &&
 //@                     isType(s.records[path], fileRecord) && s.records[path].(fileRecord).store == s && s.records[path].(fileRecord).path == path &&
 //@                     s.records[path].(fileRecord).data == old(srcData(src)) &&
-//@                     s.records[path].(fileRecord).mode == old(retW("keyvalue.(FileRecord).Mode", 0, srcW1(src), src)) &&
-//@                     s.records[path].(fileRecord).modTime == old(retW("keyvalue.(FileRecord).ModTime", 0, srcW1(src), src)))
+//@                     s.records[path].(fileRecord).mode == old(ret("keyvalue.(FileRecord).Mode", 0, src)) &&
+//@                     s.records[path].(fileRecord).modTime == old(ret("keyvalue.(FileRecord).ModTime", 0, src)))
 //@   nopanic
 
 //@ spec hErr(t *transaction, handler keyvalue.OpHandler, op keyvalue.OpID, rec keyvalue.FileRecord, e error) := ret("keyvalue.(OpHandler).Handle", 0, handler, t, mkstruct(keyvalue.OpResult, op, rec, e))
@@ -123,8 +122,8 @@ package mem
 //@   ensures "data-error" implies(!old(cancelled(t.ctx)) && src != nil && old(srcDataErr(src)) != nil, t.results[id].Err == old(srcDataErr(src)) && sameAll(t.store))
 //@   ensures "store" implies(!old(cancelled(t.ctx)) && src != nil && old(srcDataErr(src)) == nil, in(path, dom(t.store.records)) && sameExcept(t.store, path) &&
 //@                        isType(t.store.records[path], fileRecord) && t.store.records[path].(fileRecord).data == old(srcData(src)) &&
-//@                        t.store.records[path].(fileRecord).mode == old(retW("keyvalue.(FileRecord).Mode", 0, srcW1(src), src)) &&
-//@                        t.store.records[path].(fileRecord).modTime == old(retW("keyvalue.(FileRecord).ModTime", 0, srcW1(src), src)))
+//@                        t.store.records[path].(fileRecord).mode == old(ret("keyvalue.(FileRecord).Mode", 0, src)) &&
+//@                        t.store.records[path].(fileRecord).modTime == old(ret("keyvalue.(FileRecord).ModTime", 0, src)))
 //@   ensures "inv" txnInv(t) && implies(old(cancelled(t.ctx)), cancelled(t.ctx))
 //@   ensures "noop-handler" implies(isType(handler, keyvalue.OpHandlerFunc) && noopfn(payload(handler)),
 //@                        cancelled(t.ctx) == old(cancelled(t.ctx)) && t.released == old(t.released) && held(t.store.mu) == old(held(t.store.mu)) &&
